@@ -43,6 +43,14 @@ Definition observe (ncols nkeys : nat) (s : pstate) : list N :=
                                          opt_tok (get_size s (N.of_nat c) (N.of_nat k))])
                               (seq 0 nkeys)) (seq 0 ncols).
 
+(* after a reopen: the stored count of every key of every hash counted column, then the number of
+   stray values (always 0 in the model) *)
+Definition observe_rc (cfg : list ccfg) (nkeys : nat) (s : pstate) : list N :=
+  flat_map (fun c => let cf := cfg_of cfg (N.of_nat c) in
+                     if c_rc cf && negb (c_btree cf)
+                     then map (fun k => stored_rc s (N.of_nat c) (N.of_nat k)) (seq 0 nkeys) ++ [0]
+                     else []) (seq 0 (length cfg)).
+
 Fixpoint run_steps (fuel : nat) (cfg : list ccfg) (nkeys : nat) (s : pstate) (l : list N) : list N :=
   match fuel with
   | O => []
@@ -63,7 +71,9 @@ Fixpoint run_steps (fuel : nat) (cfg : list ccfg) (nkeys : nat) (s : pstate) (l 
             else if code =? 6 then (SReopen, rest)
             else (SEnactOne, rest) in
           let '(s', status) := do_step cfg s st in
-          status :: observe (length cfg) nkeys s' ++ run_steps f cfg nkeys s' rest'
+          status :: observe (length cfg) nkeys s'
+            ++ (match st with SReopen => observe_rc cfg nkeys s' | _ => [] end)
+            ++ run_steps f cfg nkeys s' rest'
       end
   end.
 
